@@ -206,7 +206,7 @@ prop('C09',
            'one call held until everything else is done and the input closed, cancel with calls in flight); second tier: the same scenario families free-running under -race with GOMAXPROCS in {1,2,4,16}; '
            'oracle: delivered multisets are sub-multisets of what the sequential stage delivers at every receive and equal at close (Try errors likewise), per-argument call count = multiplicity, in-flight calls <= workers at every quiescent point, '
            'no output observed closed while a call is in flight, closure/cancel/leak clauses as C06 (fair completion, census, bubble exit), no race report; '
-           'calls in flight stay gated across a cancel (an output observed closed while a call is in flight is a violation, cancelled or not); a constructed class makes every in-flight call return in the same batch with the output buffer partly filled and nobody receiving (repeated 6 times to sample the overlap); a sixth of the scenarios run an independent second instance alongside, stages are also created on an already cancelled context; a separate part streams elements of type any through fork.Map/Filter/Partition; the simultaneous-release class wakes all pending calls with one channel close (barrier move) with exactly one free output slot in half of its scenarios, 30 attempts; a separate differential part runs the thin delegations fork.Emit / Unfold / TakeWhile with fork.Pure / Lift / Try morphisms against the pipe stage with the pipe morphism of the same mode (values, errors preceding the n-th value, closure); non-trivial = workers >= 2, input >= workers+1, and some release opened a gate other than the oldest; distinct = different canonical scenario'),
+           'calls in flight stay gated across a cancel (an output observed closed while a call is in flight is a violation, cancelled or not); a constructed class makes every in-flight call return in the same batch with the output buffer partly filled and nobody receiving (repeated 6 times to sample the overlap); a sixth of the scenarios run an independent second instance alongside, stages are also created on an already cancelled context; a separate part streams elements of type any through fork.Map/Filter/Partition; the simultaneous-release class wakes all pending calls with one channel close (barrier move) with exactly one free output slot in half of its scenarios, 30 attempts; a separate differential part runs the thin delegations fork.Emit / Unfold / TakeWhile with fork.Pure / Lift / Try morphisms against the pipe stage with the pipe morphism of the same mode (values, errors preceding the n-th value, closure); a quarter of the fork.Filter / fork.Partition scenarios use Lift/Try predicates that return errors (closure, leak, call-count and nothing-invented clauses only); non-trivial = workers >= 2, input >= workers+1, and some release opened a gate other than the oldest; distinct = different canonical scenario'),
      assumptions=E3_ASSUME + ['on cancel the harness opens all gates (a stage cannot terminate a user function that blocks forever)',
                               'Lift-mode fork stages are checked for closure, leaks and sub-multisets only (each worker stops at its own first failure)',
                               'in the free-running tier a hang is a 20 s timeout and reported as inconclusive; termination is decided by the bubble tier'],
